@@ -32,8 +32,36 @@ package migrations
 //@     invariant copiedValues: forall k string :: has(newTargetsMetadata.Delegations.Principals, k) ==> newTargetsMetadata.Delegations.Principals[k] == toIfc(targetsMetadata.Delegations.Keys[k], tuf.Principal)
 //@     invariant rules: forall i :: 0 <= i && i <= rangeindex ==> newTargetsMetadata.Delegations.Roles[i] != nil && fresh(newTargetsMetadata.Delegations.Roles[i]) && newTargetsMetadata.Delegations.Roles[i].Name == targetsMetadata.Delegations.Roles[i].Name && newTargetsMetadata.Delegations.Roles[i].Paths == targetsMetadata.Delegations.Roles[i].Paths && newTargetsMetadata.Delegations.Roles[i].Terminating == targetsMetadata.Delegations.Roles[i].Terminating && newTargetsMetadata.Delegations.Roles[i].Threshold == targetsMetadata.Delegations.Roles[i].Threshold && newTargetsMetadata.Delegations.Roles[i].PrincipalIDs == targetsMetadata.Delegations.Roles[i].KeyIDs
 
-//@ # root metadata migration: assumed for now (used by the policy readers through rootMD)
-//@ func MigrateRootMetadataV01ToV02 -> (n)
-//@   trusted
+//@ # ---- C13: migrating a legacy root keeps everything a query can see ----
+//@ define rootShape(n *tufv02.RootMetadata, o *tufv01.RootMetadata) bool = n != nil && fresh(n) && n.Version == o.Version && n.Expires == o.Expires && n.RepositoryLocation == o.RepositoryLocation
+//@ func [C13] MigrateRootMetadataV01ToV02 -> (n)
+//@   requires rootMetadata != nil
+//@   # A-wfmeta: a decoded legacy root has no null repository entries
+//@   inputassumed noNullRepositories: rootMetadata.MultiRepository != nil ==> (forall i :: 0 <= i && i < len(rootMetadata.MultiRepository.ControllerRepositories) ==> rootMetadata.MultiRepository.ControllerRepositories[i] != nil) && (forall i :: 0 <= i && i < len(rootMetadata.MultiRepository.NetworkRepositories) ==> rootMetadata.MultiRepository.NetworkRepositories[i] != nil)
 //@   assigns fresh(tufv02.RootMetadata.*), fresh(tufv02.MultiRepository.*), fresh(tufv02.OtherRepository.*), fresh(elems *tufv02.OtherRepository), fresh(map map[string]tuf.Principal), fresh(map map[string]tufv02.Role)
-//@   ensures n != nil && fresh(n) && n.Version == rootMetadata.Version
+//@   ensures sameScalars: rootShape(n, rootMetadata)
+//@   ensures sameTables: n.GitHubApps == rootMetadata.GitHubApps && n.GlobalRules == rootMetadata.GlobalRules && n.Propagations == rootMetadata.Propagations && n.Hooks == rootMetadata.Hooks
+//@   ensures samePrincipals: forall k string :: has(n.Principals, k) <==> has(rootMetadata.Keys, k)
+//@   ensures samePrincipalValues: forall k string :: has(n.Principals, k) ==> n.Principals[k] == toIfc(rootMetadata.Keys[k], tuf.Principal)
+//@   ensures sameRoles: forall r string :: has(n.Roles, r) <==> has(rootMetadata.Roles, r)
+//@   ensures sameRoleValues: forall r string :: has(n.Roles, r) ==> n.Roles[r].Threshold == rootMetadata.Roles[r].Threshold && n.Roles[r].PrincipalIDs == rootMetadata.Roles[r].KeyIDs
+//@   ensures multiRepository: (n.MultiRepository != nil) == (rootMetadata.MultiRepository != nil) && (n.MultiRepository != nil ==> n.MultiRepository.Controller == rootMetadata.MultiRepository.Controller && len(n.MultiRepository.ControllerRepositories) == len(rootMetadata.MultiRepository.ControllerRepositories) && len(n.MultiRepository.NetworkRepositories) == len(rootMetadata.MultiRepository.NetworkRepositories))
+//@   loop 1:
+//@     invariant shape: rootShape(newRootMetadata, rootMetadata) && newRootMetadata.Principals != nil && fresh(newRootMetadata.Principals)
+//@     invariant copied: forall k string :: has(newRootMetadata.Principals, k) <==> (has(rootMetadata.Keys, k) && visited(k))
+//@     invariant copiedValues: forall k string :: has(newRootMetadata.Principals, k) ==> newRootMetadata.Principals[k] == toIfc(rootMetadata.Keys[k], tuf.Principal)
+//@   loop 2:
+//@     invariant shape: rootShape(newRootMetadata, rootMetadata) && newRootMetadata.Principals != nil && fresh(newRootMetadata.Principals) && newRootMetadata.Roles != nil && fresh(newRootMetadata.Roles)
+//@     invariant principals: (forall k string :: has(newRootMetadata.Principals, k) <==> has(rootMetadata.Keys, k)) && (forall k string :: has(newRootMetadata.Principals, k) ==> newRootMetadata.Principals[k] == toIfc(rootMetadata.Keys[k], tuf.Principal))
+//@     invariant copied: forall r string :: has(newRootMetadata.Roles, r) <==> (has(rootMetadata.Roles, r) && visited(r))
+//@     invariant copiedValues: forall r string :: has(newRootMetadata.Roles, r) ==> newRootMetadata.Roles[r].Threshold == rootMetadata.Roles[r].Threshold && newRootMetadata.Roles[r].PrincipalIDs == rootMetadata.Roles[r].KeyIDs
+//@   loop 3:
+//@     invariant shape: rootShape(newRootMetadata, rootMetadata) && rootMetadata.MultiRepository != nil && newRootMetadata.MultiRepository != nil && fresh(newRootMetadata.MultiRepository) && newRootMetadata.MultiRepository.Controller == rootMetadata.MultiRepository.Controller && len(newRootMetadata.MultiRepository.NetworkRepositories) == 0
+//@     invariant tables: newRootMetadata.GitHubApps == rootMetadata.GitHubApps && newRootMetadata.GlobalRules == rootMetadata.GlobalRules && newRootMetadata.Propagations == rootMetadata.Propagations
+//@     invariant maps: (forall k string :: has(newRootMetadata.Principals, k) <==> has(rootMetadata.Keys, k)) && (forall k string :: has(newRootMetadata.Principals, k) ==> newRootMetadata.Principals[k] == toIfc(rootMetadata.Keys[k], tuf.Principal)) && (forall r string :: has(newRootMetadata.Roles, r) <==> has(rootMetadata.Roles, r)) && (forall r string :: has(newRootMetadata.Roles, r) ==> newRootMetadata.Roles[r].Threshold == rootMetadata.Roles[r].Threshold && newRootMetadata.Roles[r].PrincipalIDs == rootMetadata.Roles[r].KeyIDs)
+//@     invariant count: len(newRootMetadata.MultiRepository.ControllerRepositories) == rangeindex + 1
+//@   loop 4:
+//@     invariant shape: rootShape(newRootMetadata, rootMetadata) && rootMetadata.MultiRepository != nil && newRootMetadata.MultiRepository != nil && fresh(newRootMetadata.MultiRepository) && newRootMetadata.MultiRepository.Controller == rootMetadata.MultiRepository.Controller && len(newRootMetadata.MultiRepository.ControllerRepositories) == len(rootMetadata.MultiRepository.ControllerRepositories)
+//@     invariant tables: newRootMetadata.GitHubApps == rootMetadata.GitHubApps && newRootMetadata.GlobalRules == rootMetadata.GlobalRules && newRootMetadata.Propagations == rootMetadata.Propagations
+//@     invariant maps: (forall k string :: has(newRootMetadata.Principals, k) <==> has(rootMetadata.Keys, k)) && (forall k string :: has(newRootMetadata.Principals, k) ==> newRootMetadata.Principals[k] == toIfc(rootMetadata.Keys[k], tuf.Principal)) && (forall r string :: has(newRootMetadata.Roles, r) <==> has(rootMetadata.Roles, r)) && (forall r string :: has(newRootMetadata.Roles, r) ==> newRootMetadata.Roles[r].Threshold == rootMetadata.Roles[r].Threshold && newRootMetadata.Roles[r].PrincipalIDs == rootMetadata.Roles[r].KeyIDs)
+//@     invariant count: len(newRootMetadata.MultiRepository.NetworkRepositories) == rangeindex + 1
